@@ -405,3 +405,30 @@ where
     let one = circuit.define_const(SC::Challenge::ONE);
     circuit.sub(exp, one)
 }
+
+/// Crate-visible entry to [`vanishing_poly_at_point_circuit`] for `verif_hooks`.
+#[cfg(feature = "verif-hooks")]
+pub(crate) fn verif_vanishing_poly_at_point_circuit<
+    SC: StarkGenericConfig,
+    InputProof: Recursive<SC::Challenge>,
+    OpeningProof: Recursive<SC::Challenge>,
+    Comm: Recursive<SC::Challenge>,
+>(
+    pcs: &SC::Pcs,
+    domain: &<SC::Pcs as p3_commit::Pcs<SC::Challenge, SC::Challenger>>::Domain,
+    point: Target,
+    circuit: &mut CircuitBuilder<SC::Challenge>,
+) -> Target
+where
+    SC::Pcs: RecursivePcs<
+            SC,
+            InputProof,
+            OpeningProof,
+            Comm,
+            <SC::Pcs as p3_commit::Pcs<SC::Challenge, SC::Challenger>>::Domain,
+        >,
+{
+    vanishing_poly_at_point_circuit::<SC, InputProof, OpeningProof, Comm, _>(
+        pcs, domain, point, circuit,
+    )
+}
